@@ -125,6 +125,10 @@ def brace_cases():
     out.append(("===D===\nK::\n````\n```inner\nPoint{x}\n```\nAlso{y}\n````\nLIVE::Foo{z}\n===END===\n", [("Foo{z}", "Foo<z>")], ["Point{x}", "Also{y}"]))
     out.append(("===D===\nK::\n`````md\n```\nA{b}\n````\nC{d}\n`````\nLIVE::Foo{z}\n===END===\n", [("Foo{z}", "Foo<z>")], ["A{b}", "C{d}"]))
     out.append(("===D===\nB:\n  ````\n  ``` x\n  P{q}\n  ````\n  K::R{s}\n===END===\n", [("R{s}", "R<s>")], ["P{q}"]))
+    # content lines that LOOK like a fence of the zone's own length but are not one for the lexer (run behind a tab / NBSP / form
+    # feed; a run followed by a later backtick): they do not end the zone, so what follows them is still protected
+    for look in ("\t```", "\u00a0```", "\x0c```", "```js` is the tag", "\t``` x"):
+        out.append((f"===D===\nK::\n```\n{look}\nFOO{{bar}}\n```\nLIVE::Foo{{z}}\n===END===\n", [("Foo{z}", "Foo<z>")], ["FOO{bar}"]))
     out.append(('===D===\nS::"x" // c "y" N{q}\nT::"p" \n// "z" M{r}\nA::K{v}\n===END===\n', [("K{v}", "K<v>")], ['c "y" N{q}', '"z" M{r}']))
     return out
 
